@@ -241,7 +241,17 @@ def check_snapshot_fresh(mod, rep, rid):
                 h = mod.func(callee) if callee else None
                 if h is None or h.decl or not h.internal or callee == gname:
                     return False
-                r = util.reach(cg, [callee])
+                # calls made by the helper and by the static helpers below it (public functions are not descended into: the sleep itself
+                # reaches list operations of other objects through the note mutex)
+                r, work = set(), [callee]
+                while work:
+                    x = work.pop()
+                    for y in cg.get(x, ()):
+                        if y not in r:
+                            r.add(y)
+                            hy = mod.func(y)
+                            if hy is not None and not hy.decl and hy.internal:
+                                work.append(y)
                 return bool(r & set(what)) and not (r & set(other))
             sleeps = [i for i in g.real_insts() if i.op == 'call' and via(i.callee, SLEEP, ENQ)]
             enqs = [i for i in g.real_insts() if i.op == 'call' and via(i.callee, ENQ, SLEEP)]
@@ -274,7 +284,7 @@ def check_snapshot_fresh(mod, rep, rid):
             snaps = []
             for l in loads:
                 us = users_closure(l)
-                if us and paths_avoiding(g, l, lambda i: any(i is t for t in sleeps), lambda i: id(i) in us) is not None:
+                if us and paths_avoiding(g, l, lambda i: any(i is t for t in sleeps), lambda i: id(i) in us and not any(i is t for t in sleeps)) is not None:
                     snaps.append(l)
             sn = set(id(x) for x in snaps)
             for T in sleeps:
